@@ -8,6 +8,7 @@
 -/
 import OidcModel.Proofs.C05
 import OidcModel.Model.EndpointFlow
+import OidcModel.GoTac
 namespace C05
 open Go Gen Hand Flow
 
@@ -72,6 +73,62 @@ theorem fits_of_public {x : EPProvider} {now : Int} {k : Creds} {id sec : String
   unfold credsFit
   rw [hp]
   simp [credentialFits, C04.callerIs, hnone, hid, Const.AuthMethodNone]
+
+/-- the storage's secret check (`EPStorage.AuthorizeClientIDSecret`): a registered client whose stored secret is the presented one
+    and - unless the storage only compares secrets - which is registered for a secret method -/
+theorem epSecret_ok {s : EPStorage} {id sec : String} (h : s.AuthorizeClientIDSecret id sec = .ok ()) :
+    ∃ c, s.base.clients.find? (·.id == id) = some c ∧ c.secret = sec ∧
+      (s.secretCompareOnly = true ∨ c.auth = Const.AuthMethodBasic ∨ c.auth = Const.AuthMethodPost) := by
+  unfold EPStorage.AuthorizeClientIDSecret at h
+  split at h
+  · rename_i hl
+    split at h
+    · rename_i c hc
+      split at h
+      · rename_i hs
+        exact ⟨c, hc, by simpa using hs, Or.inl hl⟩
+      · simp at h
+    · simp at h
+  · obtain ⟨c, hc, hauth, hs⟩ := secret_ok h
+    exact ⟨c, hc, hs, Or.inr hauth⟩
+
+/-- a storage that does not only compare answers as the reference store does -/
+theorem epSecret_strict {s : EPStorage} (hS : s.secretCompareOnly = false) (id sec : String) :
+    s.AuthorizeClientIDSecret id sec = s.base.AuthorizeClientIDSecret id sec := by
+  simp [EPStorage.AuthorizeClientIDSecret, hS]
+
+/-- registrations without a secret method have no stored secret (what a storage that only compares secrets must be given so
+    that a non-empty secret identifies a client registered for a secret method) -/
+def NoStraySecrets (x : EPProvider) : Prop :=
+  ∀ c ∈ x.storage.base.clients, (c.auth = Const.AuthMethodNone ∨ c.auth = Const.AuthMethodPrivateKeyJWT) → c.secret = ""
+
+/-- the stored secret of a client that is not registered for private_key_jwt fits its registration (a public client: its id) -/
+theorem fits_of_presented {x : EPProvider} {now : Int} {k : Creds} {p : C04.Presented} {cl : OPClient}
+    (hp : k.primary = some p) (hid : cl.id = p.clientID) (hs : cl.secret = p.secret)
+    (hk : cl.auth ≠ Const.AuthMethodPrivateKeyJWT)
+    (hpost : cl.auth = Const.AuthMethodPost → x.config.AuthMethodPost = true) :
+    credsFit (cfgOf x) now cl k = true := by
+  unfold credsFit
+  rw [hp]
+  simp only [credentialFits, C04.callerIs, cfgOf]
+  have hk' : (cl.auth == "private_key_jwt") = false := by simpa [Const.AuthMethodPrivateKeyJWT] using hk
+  by_cases hn : cl.auth = Const.AuthMethodNone
+  · have hn' : (cl.auth == "none") = true := by simpa [Const.AuthMethodNone] using hn
+    have hpo : (cl.auth == "client_secret_post") = false := by rw [hn]; decide
+    simp [hn', hid, hpo]
+  · have hn' : (cl.auth == "none") = false := by simpa [Const.AuthMethodNone] using hn
+    by_cases ha : cl.auth = Const.AuthMethodPost
+    · have := hpost ha
+      simp [hn', hk', hid, hs, this]
+    · have ha' : (cl.auth == "client_secret_post") = false := by simpa [Const.AuthMethodPost] using ha
+      simp [hn', hk', hid, hs, ha']
+
+theorem fits_of_stored_secret {x : EPProvider} {now : Int} {k : Creds} {id sec : String} {cl : OPClient}
+    (hp : k.primary = some { clientID := id, secret := sec }) (hid : cl.id = id) (hs : cl.secret = sec)
+    (_hn : cl.auth ≠ Const.AuthMethodNone) (hk : cl.auth ≠ Const.AuthMethodPrivateKeyJWT)
+    (hpost : cl.auth = Const.AuthMethodPost → x.config.AuthMethodPost = true) :
+    credsFit (cfgOf x) now cl k = true :=
+  fits_of_presented hp hid hs hk hpost
 
 /-! ## assertions -/
 
@@ -574,8 +631,8 @@ theorem goodToken_clientCredentialsExchange {x : EPProvider} {now : Int} {o : EP
 def NoEmptyID (x : EPProvider) : Prop := ∀ c ∈ x.storage.base.clients, c.id ≠ ""
 
 theorem genAuthorizeSecret_ok {now : Int} {id sec : String} {s : EPStorage} (h : GenEP.AuthorizeClientIDSecret now id sec s = .ok ()) :
-    s.base.AuthorizeClientIDSecret id sec = .ok () := by
-  unfold GenEP.AuthorizeClientIDSecret EPStorage.AuthorizeClientIDSecret at h
+    s.AuthorizeClientIDSecret id sec = .ok () := by
+  unfold GenEP.AuthorizeClientIDSecret at h
   split at h <;> simp_all
 
 theorem parseTokenExchangeRequest_ok {now : Int} {o : EPOracles} {r : EPRequest} {d : EPDecoder} {f : EPForm} {id sec : String}
@@ -600,7 +657,7 @@ theorem parseTokenExchangeRequest_ok {now : Int} {o : EPOracles} {r : EPRequest}
     right; unfold credsOf; simp [hb, hu, hp]
 
 theorem goodToken_tokenExchange {x : EPProvider} {now : Int} {o : EPOracles} {r : EPRequest}
-    (hW : NoEmptyID x) :
+    (hW : NoEmptyID x) (hS : x.storage.secretCompareOnly = false) :
     GoodToken (cfgOf x) now (credsOf o r) Const.GrantTypeTokenExchange (GenEP.TokenExchange now o r x) := by
   unfold GenEP.TokenExchange
   split; · exact goodToken_requestError ..
@@ -632,6 +689,7 @@ theorem goodToken_tokenExchange {x : EPProvider} {now : Int} {o : EPOracles} {r 
     split at hauth; · simp at hauth
     rename_i hsec0
     have hsec := genAuthorizeSecret_ok hsec0
+    rw [epSecret_strict hS] at hsec
     split at hauth; · simp at hauth
     rename_i c0 hget
     simp only [EPStorage.GetClientByClientID] at hget
@@ -709,7 +767,7 @@ theorem clientJWTAuth_ok {now : Int} {o : EPOracles} {ca : EPForm} {p : EPProvid
 
 theorem clientBasicAuth_ok {now : Int} {o : EPOracles} {r : EPRequest} {s : EPStorage} {id : String}
     (h : GenEP.ClientBasicAuth now o r s = .ok id) :
-    ∃ sec, (credsOf o r).primary = some { clientID := id, secret := sec } ∧ s.base.AuthorizeClientIDSecret id sec = .ok () := by
+    ∃ sec, (credsOf o r).primary = some { clientID := id, secret := sec } ∧ s.AuthorizeClientIDSecret id sec = .ok () := by
   unfold GenEP.ClientBasicAuth EPRequest.BasicAuth at h
   cases hb : r.basic with
   | none => simp [hb] at h
@@ -768,7 +826,7 @@ theorem clientIDFromRequest_ok {now : Int} {o : EPOracles} {r : EPRequest} {p : 
     (h : GenEP.ClientIDFromRequest now o r p = .ok (id, auth)) :
     (auth = true ∧ ∃ j, VerifyJWTAssertion now (o.tokenOf (r.Form.last "client_assertion")) (p.asProvider now).JWTProfileVerifier = .ok j ∧ id = j.iss ∧
         ∃ cl, p.storage.base.GetClientByClientID id = .ok cl ∧ cl.auth = Const.AuthMethodPrivateKeyJWT)
-    ∨ (auth = true ∧ (∃ sec, (credsOf o r).primary = some { clientID := id, secret := sec } ∧ p.storage.base.AuthorizeClientIDSecret id sec = .ok ()) ∧
+    ∨ (auth = true ∧ (∃ sec, (credsOf o r).primary = some { clientID := id, secret := sec } ∧ p.storage.AuthorizeClientIDSecret id sec = .ok ()) ∧
         ∀ cl, p.storage.base.GetClientByClientID id = .ok cl → cl.auth = Const.AuthMethodPost → p.config.AuthMethodPost = true)
     ∨ (auth = false ∧ (credsOf o r).primary = some { clientID := id, secret := r.Form.last "client_secret" }) := by
   unfold GenEP.ClientIDFromRequest at h
@@ -810,12 +868,13 @@ theorem clientIDFromRequest_ok {now : Int} {o : EPOracles} {r : EPRequest} {p : 
 
 /-- a client authenticated through `ClientIDFromRequest`: registered, not public, and a credential of the request fits -/
 theorem authenticated_clientID {now : Int} {o : EPOracles} {r : EPRequest} {x : EPProvider} {id : String}
-    (h : GenEP.ClientIDFromRequest now o r x = .ok (id, true)) :
+    (h : GenEP.ClientIDFromRequest now o r x = .ok (id, true)) (hS : x.storage.secretCompareOnly = false) :
     ∃ cl, x.storage.base.GetClientByClientID id = .ok cl ∧ cl.auth ≠ Const.AuthMethodNone ∧ credsFit (cfgOf x) now cl (credsOf o r) = true := by
   rcases clientIDFromRequest_ok h with ⟨_, j, hv, hj, cl, hget, hpk⟩ | ⟨_, ⟨sec, hp, hsec⟩, hpost⟩ | ⟨hfalse, _⟩
   · subst hj
     exact ⟨cl, hget, by rw [hpk]; decide, fits_of_assertion (k := credsOf o r) rfl hv hget hpk⟩
-  · obtain ⟨c, hc, hauth, _⟩ := secret_ok hsec
+  · rw [epSecret_strict hS] at hsec
+    obtain ⟨c, hc, hauth, _⟩ := secret_ok hsec
     have hget := getClient_of_find hc
     refine ⟨c, hget, ?_, fits_of_secret hp hget hsec (hpost c hget)⟩
     rcases hauth with h' | h' <;> (rw [h']; decide)
@@ -853,7 +912,7 @@ theorem checkDeviceState_ok {now : Int} {clientID code : String} {x : EPProvider
     · simp at hget
 
 theorem goodToken_deviceAccessToken {x : EPProvider} {now : Int} {o : EPOracles} {r : EPRequest}
-    (hD : DeviceGrantsRegistered x) :
+    (hD : DeviceGrantsRegistered x) (hS : x.storage.secretCompareOnly = false) :
     GoodToken (cfgOf x) now (credsOf o r) Const.GrantTypeDeviceCode (GenEP.DeviceAccessToken now o r x) := by
   unfold GenEP.DeviceAccessToken
   split; · exact goodToken_requestError ..
@@ -880,7 +939,7 @@ theorem goodToken_deviceAccessToken {x : EPProvider} {now : Int} {o : EPOracles}
     have hfit : credsFit (cfgOf x) now client (credsOf o r) = true := by
       cases auth with
       | true =>
-        obtain ⟨cl, hgetcl, _, hfit⟩ := authenticated_clientID hcid
+        obtain ⟨cl, hgetcl, _, hfit⟩ := authenticated_clientID hcid hS
         rw [hget] at hgetcl; cases hgetcl; exact hfit
       | false =>
         rcases clientIDFromRequest_ok hcid with ⟨ht, _⟩ | ⟨ht, _⟩ | ⟨_, hp⟩
@@ -903,7 +962,8 @@ theorem goodToken_deviceAccessToken {x : EPProvider} {now : Int} {o : EPOracles}
 /-- the grant switch of the Provider router: dispatch, flag / capability checks, and every grant handler -/
 theorem goodToken_exchange {x : EPProvider} {now : Int} {o : EPOracles} {r : EPRequest}
     (hTE : grantOf r = Const.GrantTypeTokenExchange → NoEmptyID x)
-    (hDev : grantOf r = Const.GrantTypeDeviceCode → DeviceGrantsRegistered x) :
+    (hDev : grantOf r = Const.GrantTypeDeviceCode → DeviceGrantsRegistered x)
+    (hS : grantOf r = Const.GrantTypeTokenExchange ∨ grantOf r = Const.GrantTypeDeviceCode → x.storage.secretCompareOnly = false) :
     GoodToken (cfgOf x) now (credsOf o r) (grantOf r) (GenEP.Exchange now o r x) := by
   unfold GenEP.Exchange
   simp only []
@@ -924,7 +984,7 @@ theorem goodToken_exchange {x : EPProvider} {now : Int} {o : EPOracles} {r : EPR
   split
   · rename_i _ _ _ h; have h' : grantOf r = Const.GrantTypeTokenExchange := by simpa [grantOf, EPRequest.FormValue] using h
     split
-    · rw [h']; exact goodToken_tokenExchange (hTE h')
+    · rw [h']; exact goodToken_tokenExchange (hTE h') (hS (Or.inl h'))
     · exact goodToken_requestError ..
   split
   · rename_i _ _ _ _ h; have h' : grantOf r = Const.GrantTypeClientCredentials := by simpa [grantOf, EPRequest.FormValue] using h
@@ -934,7 +994,7 @@ theorem goodToken_exchange {x : EPProvider} {now : Int} {o : EPOracles} {r : EPR
   split
   · rename_i _ _ _ _ _ h; have h' : grantOf r = Const.GrantTypeDeviceCode := by simpa [grantOf, EPRequest.FormValue] using h
     split
-    · rw [h']; exact goodToken_deviceAccessToken (hDev h')
+    · rw [h']; exact goodToken_deviceAccessToken (hDev h') (hS (Or.inr h'))
     · exact goodToken_requestError ..
   split
   · exact goodToken_requestError ..
@@ -945,14 +1005,25 @@ theorem goodToken_exchange {x : EPProvider} {now : Int} {o : EPOracles} {r : EPR
 /-- a client authenticated by its secret, as `GoodIntrospect` / `GoodRevoke` need it -/
 theorem secret_client {x : EPProvider} {now : Int} {k : Creds} {id sec : String}
     (hP : ∀ cl, x.storage.base.GetClientByClientID id = .ok cl → cl.auth = Const.AuthMethodPost → x.config.AuthMethodPost = true)
-    (hp : k.primary = some { clientID := id, secret := sec }) (hsec : x.storage.base.AuthorizeClientIDSecret id sec = .ok ()) :
+    (hp : k.primary = some { clientID := id, secret := sec }) (hsec : x.storage.AuthorizeClientIDSecret id sec = .ok ())
+    (hS : x.storage.secretCompareOnly = true → sec ≠ "" ∧ NoStraySecrets x) :
     ∃ cl, (cfgOf x).base.clients.find? (·.id == id) = some cl ∧ cl.auth ≠ Const.AuthMethodNone ∧ credsFit (cfgOf x) now cl k = true := by
-  obtain ⟨c, hc, hauth, _⟩ := secret_ok hsec
+  obtain ⟨c, hc, hs, hauth⟩ := epSecret_ok hsec
   have hget := getClient_of_find hc
-  refine ⟨c, hc, ?_, fits_of_secret hp hget hsec (hP c hget)⟩
-  rcases hauth with h | h <;> (rw [h]; decide)
+  have hmeth : c.auth ≠ Const.AuthMethodNone ∧ c.auth ≠ Const.AuthMethodPrivateKeyJWT := by
+    rcases hauth with hl | h | h
+    · -- the storage only compares: the presented secret is not empty, so the client has a stored secret
+      obtain ⟨hne, hstray⟩ := hS hl
+      have hmem := List.mem_of_find?_eq_some hc
+      constructor
+      · intro ha; exact hne (by rw [← hs]; exact hstray c hmem (Or.inl ha))
+      · intro ha; exact hne (by rw [← hs]; exact hstray c hmem (Or.inr ha))
+    · rw [h]; exact ⟨by decide, by decide⟩
+    · rw [h]; exact ⟨by decide, by decide⟩
+  exact ⟨c, hc, hmeth.1, fits_of_stored_secret hp (find_id hc) hs hmeth.1 hmeth.2 (hP c hget)⟩
 
-theorem goodIntrospect_introspect {x : EPProvider} {now : Int} {o : EPOracles} {r : EPRequest} :
+theorem goodIntrospect_introspect {x : EPProvider} {now : Int} {o : EPOracles} {r : EPRequest}
+    (hS : x.storage.secretCompareOnly = false) :
     GoodIntrospect (cfgOf x) now (credsOf o r) (GenEP.Introspect now o r x) := by
   unfold GenEP.Introspect
   simp only []
@@ -978,13 +1049,13 @@ theorem goodIntrospect_introspect {x : EPProvider} {now : Int} {o : EPOracles} {
       cases auth with
       | false => simp at hauth
       | true =>
-        obtain ⟨cl, hget, hne, hfit⟩ := authenticated_clientID hcid
+        obtain ⟨cl, hget, hne, hfit⟩ := authenticated_clientID hcid hS
         obtain ⟨_, hid⟩ := getClient_ok hget
         exact ⟨cl, by simpa [hid] using getClient_find hget, hne, hfit⟩
     · simp at hset
 
 theorem parseTokenRevocationRequest_ok {x : EPProvider} {now : Int} {o : EPOracles} {r : EPRequest} {tok hint id : String}
-    (h : GenEP.ParseTokenRevocationRequest now o r x = .ok (tok, hint, id)) :
+    (h : GenEP.ParseTokenRevocationRequest now o r x = .ok (tok, hint, id)) (hS : x.storage.secretCompareOnly = false) :
     ∃ cl, (cfgOf x).base.clients.find? (·.id == id) = some cl ∧ credsFit (cfgOf x) now cl (credsOf o r) = true := by
   unfold GenEP.ParseTokenRevocationRequest at h
   split at h; · simp at h
@@ -1026,6 +1097,7 @@ theorem parseTokenRevocationRequest_ok {x : EPProvider} {now : Int} {o : EPOracl
       simp at h
       obtain ⟨_, _, rfl⟩ := h
       obtain ⟨cl, hf, _, hfit⟩ := secret_client (now := now) (checkAuthMethodPost_ok hpost) (hsome u p id' sec hb hu hp) (genAuthorizeSecret_ok hsec)
+        (fun hl => absurd hl (by simp [hS]))
       exact ⟨cl, hf, hfit⟩
     | none =>
       simp only [hb] at h
@@ -1050,17 +1122,18 @@ theorem parseTokenRevocationRequest_ok {x : EPProvider} {now : Int} {o : EPOracl
         simp at h
         obtain ⟨_, _, rfl⟩ := h
         obtain ⟨_, hid⟩ := getClient_ok hget
-        refine ⟨client, by simpa [hid] using getClient_find hget, fits_of_secret hprim hget (genAuthorizeSecret_ok hsec) ?_⟩
+        refine ⟨client, by simpa [hid] using getClient_find hget, fits_of_secret hprim hget (epSecret_strict hS _ _ ▸ genAuthorizeSecret_ok hsec) ?_⟩
         intro ha
         simp only [OPClient.AuthMethod, GenEP.AuthMethodPostSupported] at hpost
         simpa [ha] using hpost
 
-theorem goodRevoke_revoke {x : EPProvider} {now : Int} {o : EPOracles} {r : EPRequest} :
+theorem goodRevoke_revoke {x : EPProvider} {now : Int} {o : EPOracles} {r : EPRequest}
+    (hS : x.storage.secretCompareOnly = false) :
     GoodRevoke (cfgOf x) now (credsOf o r) (GenEP.Revoke now o r x) := by
   unfold GenEP.Revoke
   split; · exact goodRevoke_revocationRequestError ..
   rename_i tok hint id hparse
-  have hok := parseTokenRevocationRequest_ok hparse
+  have hok := parseTokenRevocationRequest_ok hparse hS
   have hdone : GoodRevoke (cfgOf x) now (credsOf o r) (Hand.epRevoked id Go.nil) := hok
   simp only []
   repeat' split
@@ -1115,26 +1188,43 @@ theorem parseClientCredentials_ok {now : Int} {o : EPOracles} {s : EPWebServer} 
   obtain ⟨h1, h2, h3, _⟩ := decode_ok hdec
   obtain ⟨hnone, hsome⟩ := primary_of_basic_override (o := o) h1 h2
   unfold EPRequest.BasicAuth at h
+  -- shape-independent from here on: every branch of the two guards is either an error or returns the (overridden) record
   cases hb : r.basic with
   | none =>
     simp only [hb] at h
     simp at h
-    split at h; · simp at h
-    split at h; · simp at h
-    simp at h; subst h
-    exact ⟨hnone hb, h3⟩
+    have hprim := hnone hb
+    repeat' (split at h)
+    all_goals first
+      | (simp at h; done)
+      | (simp at h; subst h; exact ⟨hprim, h3⟩)
   | some up =>
     obtain ⟨u, p⟩ := up
     simp only [hb] at h
     simp at h
-    split at h; · simp at h
-    rename_i id hu
-    split at h; · simp at h
-    rename_i sec hp
-    split at h; · simp at h
-    split at h; · simp at h
-    simp at h; subst h
-    exact ⟨hsome u p id sec hb hu hp, h3⟩
+    repeat' (split at h)
+    all_goals first
+      | (simp at h; done)
+      | (simp at h; subst h; exact ⟨hsome u p _ _ hb (by assumption) (by assumption), h3⟩)
+
+/-- characterisation of `LegacyServer.authenticateResourceClient` (shape-independent proof): an assertion, when present, decides
+    alone (ClientJWTAuth + the private_key_jwt registration check); otherwise the storage's secret check + the POST-method check -/
+theorem authenticateResourceClient_ok {now : Int} {o : EPOracles} {s : EPLegacyServer} {cc : EPForm} {id : String} :
+    GenEP.authenticateResourceClient now o s cc = .ok id →
+    (cc.ClientAssertion ≠ "" ∧ s.provider.is_ClientJWTProfile = true ∧
+        GenEP.ClientJWTAuth now o ({ ClientAssertion := cc.ClientAssertion } : EPForm) s.provider = .ok id ∧
+        GenEP.checkPrivateKeyJWTClient now id s.provider.Storage = .ok ())
+    ∨ (cc.ClientAssertion = "" ∧ id = cc.ClientID ∧ s.provider.Storage.AuthorizeClientIDSecret cc.ClientID cc.ClientSecret = .ok () ∧
+        GenEP.checkAuthMethodPost now cc.ClientID s.provider = .ok ()) := by
+  unfold GenEP.authenticateResourceClient
+  go_leaf
+
+/-- hypothesis of the `_partial` theorem for finding F-C05g: every client registered for the client_credentials grant authenticates
+    with a secret (and, if by client_secret_post, that method is enabled) - then the storage's secret comparison, to which a
+    `grant_type=client_credentials` parameter switches VerifyClient at ANY endpoint, is the authentication it is registered for -/
+def CCClientsBySecret (x : EPProvider) : Prop :=
+  ∀ c ∈ x.storage.base.clients, Const.GrantTypeClientCredentials ∈ c.grants →
+    c.auth ≠ Const.AuthMethodPrivateKeyJWT ∧ (c.auth = Const.AuthMethodPost → x.config.AuthMethodPost = true)
 
 /-- what `withClient` knows about the client it hands to a handler, for a request whose `grant_type` parameter is `g` -/
 def Verified (x : EPProvider) (now : Int) (k : Creds) (g : String) (c : OPClient) : Prop :=
@@ -1444,13 +1534,38 @@ theorem goodToken_tokensHandler {x : EPProvider} {now : Int} {o : EPOracles} {r 
 
 /-! ## Server router: introspection, revocation, device authorization -/
 
-theorem goodIntrospect_introspectionHandler {x : EPProvider} {now : Int} {o : EPOracles} {r : EPRequest} :
+/-- what `webServer.introspectionHandler` computes, written by hand; `introspectionHandler_eq` (shape-independent proof) ties the
+    regenerated definition to it, every theorem about the handler is proved on this function -/
+def introspectionHandlerSpec (now : Int) (o : EPOracles) (s : EPWebServer) (r : EPRequest) : EPResp :=
+  match GenEP.parseClientCredentials now o s r with
+  | .error err => GenEP.WriteError now r err
+  | .ok cc =>
+    -- "client must be authenticated"
+    if cc.ClientSecret = "" ∧ cc.ClientAssertion = "" then GenEP.WriteError now r "ErrInvalidClient" else
+    match GenEP.decodeRequest now s.decoder r false with
+    | .error err => GenEP.WriteError now r err
+    | .ok request =>
+      if request.Token = "" then GenEP.WriteError now r "ErrInvalidRequest" else
+      match GenEP.LegacyIntrospect now o s.server (Hand.epNewRequest r (EPIntrospectionRequest.mk cc request)) with
+      | .error err => GenEP.WriteError now r err
+      | .ok resp => Hand.epIntrospected resp
+
+theorem introspectionHandler_eq (now : Int) (o : EPOracles) (s : EPWebServer) (r : EPRequest) :
+    GenEP.introspectionHandler now o s r = introspectionHandlerSpec now o s r := by
+  unfold GenEP.introspectionHandler introspectionHandlerSpec
+  go_leaf
+
+theorem goodIntrospect_introspectionHandler {x : EPProvider} {now : Int} {o : EPOracles} {r : EPRequest}
+    (hStray : x.storage.secretCompareOnly = true → NoStraySecrets x) :
     GoodIntrospect (cfgOf x) now (credsOf o r) (GenEP.introspectionHandler now o (EP.webServer x) r) := by
-  unfold GenEP.introspectionHandler
+  rw [introspectionHandler_eq]
+  unfold introspectionHandlerSpec
   split; · exact goodIntrospect_writeError ..
   rename_i cc hparse
   obtain ⟨hprim, hass⟩ := parseClientCredentials_ok hparse
   split; · exact goodIntrospect_writeError ..
+  -- "client must be authenticated": past this guard the request carries a secret or an assertion
+  rename_i hguard
   split; · exact goodIntrospect_writeError ..
   split; · exact goodIntrospect_writeError ..
   split; · exact goodIntrospect_writeError ..
@@ -1461,31 +1576,19 @@ theorem goodIntrospect_introspectionHandler {x : EPProvider} {now : Int} {o : EP
   simp only [Hand.epNewRequest] at hauth
   have hclient : ∃ cl, (cfgOf x).base.clients.find? (·.id == clientID) = some cl ∧ cl.auth ≠ Const.AuthMethodNone ∧
       credsFit (cfgOf x) now cl (credsOf o r) = true := by
-    unfold GenEP.authenticateResourceClient at hauth
-    split at hauth
-    · simp only [EP.webServer] at hauth
-      cases hjp : x.is_ClientJWTProfile with
-      | false => simp [hjp] at hauth
-      | true =>
-        simp only [hjp, if_true] at hauth
-        split at hauth; · simp at hauth
-        rename_i id' hjwt
-        split at hauth; · simp at hauth
-        rename_i hpk
-        simp at hauth; subst hauth
-        obtain ⟨j, hv, hj⟩ := clientJWTAuth_ok hjwt
-        simp only [hass] at hv
-        obtain ⟨cl, hget, hpkj⟩ := checkPrivateKeyJWTClient_ok hpk
-        simp only [EPProvider.Storage] at hget
-        subst hj
-        obtain ⟨_, hid⟩ := getClient_ok hget
-        exact ⟨cl, by simpa [hid] using getClient_find hget, by rw [hpkj]; decide, fits_of_assertion (k := credsOf o r) rfl hv hget hpkj⟩
-    · split at hauth; · simp at hauth
-      rename_i hsec
-      split at hauth; · simp at hauth
-      rename_i hpost
-      simp at hauth; subst hauth
-      exact secret_client (checkAuthMethodPost_ok hpost) hprim hsec
+    rcases authenticateResourceClient_ok hauth with ⟨_, _, hjwt, hpk⟩ | ⟨ha, hid, hsec, hpost⟩
+    · obtain ⟨j, hv, hj⟩ := clientJWTAuth_ok hjwt
+      simp only [hass] at hv
+      obtain ⟨cl, hget, hpkj⟩ := checkPrivateKeyJWTClient_ok hpk
+      simp only [EPProvider.Storage, EP.webServer] at hget
+      subst hj
+      obtain ⟨_, hid⟩ := getClient_ok hget
+      exact ⟨cl, by simpa [hid] using getClient_find hget, by rw [hpkj]; decide, fits_of_assertion (k := credsOf o r) rfl hv hget hpkj⟩
+    · subst hid
+      have hne : cc.ClientSecret ≠ "" := by
+        intro he
+        simp [he, ha] at hguard
+      exact secret_client (checkAuthMethodPost_ok hpost) hprim hsec (fun hl => ⟨hne, hStray hl⟩)
   simp only [] at hresp
   split at hresp
   · simp [Hand.NewResponse] at hresp; subst hresp; simp [Hand.epIntrospected]; trivial
@@ -1501,11 +1604,13 @@ theorem goodIntrospect_introspectionHandler {x : EPProvider} {now : Int} {o : EP
       · simp at hset
 
 theorem goodRevoke_revocationHandler {x : EPProvider} {now : Int} {o : EPOracles} {r : EPRequest} {c : OPClient}
-    (hv : Verified x now (credsOf o r) (grantOf r) c) (hncc : grantOf r ≠ Const.GrantTypeClientCredentials) :
+    (hv : Verified x now (credsOf o r) (grantOf r) c) (hcc : grantOf r = Const.GrantTypeClientCredentials → CCClientsBySecret x) :
     GoodRevoke (cfgOf x) now (credsOf o r) (GenEP.revocationHandler now o (EP.webServer x) r c) := by
   have hfit : credsFit (cfgOf x) now c (credsOf o r) = true := by
-    rcases hv.2 with ⟨hcc, _⟩ | ⟨_, hfit⟩
-    · exact absurd hcc hncc
+    rcases hv.2 with ⟨hg, _, hgr, p, hp, hid, hsec⟩ | ⟨_, hfit⟩
+    · -- `grant_type=client_credentials` in a revocation request: the storage compared the secret (F-C05g)
+      obtain ⟨hnpk, hpost⟩ := hcc hg c (List.mem_of_find?_eq_some hv.1) hgr
+      exact fits_of_presented hp hid.symm hsec hnpk hpost
     · exact hfit
   unfold GenEP.revocationHandler
   split; · exact goodRevoke_writeError ..
@@ -1581,14 +1686,23 @@ theorem decision_legacy_device (now : Int) (x : EPProvider) (o : EPOracles) (r :
 /-- What the code needs in order to satisfy the monitor: each hypothesis names the paths on which it omits a check
     (findings F-C05e and F-C05g, see `c05_*_witness`); on every other path the theorem holds without it.
     * `device`  - F-C05e: the device_code grant of the Provider router does not consult the client's registered grant types
-    * `ccParam` - F-C05g: `grant_type=client_credentials` in a revocation request switches VerifyClient to the storage's ClientCredentials
+    * `ccParam` - F-C05g: `grant_type=client_credentials` in a revocation request switches VerifyClient to the storage's ClientCredentials;
+      harmless when every client registered for that grant authenticates with a secret (`CCClientsBySecret`)
     * `noEmpty` - registered client ids are not empty (token exchange of the Provider router ignores the form's client_id)
+    * `compareOnly` - F-C05h: the Provider router takes a successful `Storage.AuthorizeClientIDSecret` as authentication without
+      looking at the client's registered method (introspection, revocation, token exchange, device_code grant); with a storage
+      that only compares secrets (example/server/storage) the EMPTY secret of a public / private_key_jwt client passes
+    * `stray` - Server router, introspection, same kind of storage: the "client must be authenticated" guard (a secret or an
+      assertion is present) is enough provided registrations without a secret method have no stored secret
     (F-C05d - client_secret_post served while POST is disabled - and F-C05f - an assertion accepted for a client that is not
     registered for private_key_jwt - are repaired in the source: their hypotheses are gone.) -/
 structure Assumptions (rt : Router) (x : EPProvider) (e : EP.Endpoint) (r : EPRequest) : Prop where
   device : rt = .provider → e = .token → grantOf r = Const.GrantTypeDeviceCode → DeviceGrantsRegistered x
   noEmpty : rt = .provider → e = .token → grantOf r = Const.GrantTypeTokenExchange → NoEmptyID x
-  ccParam : rt = .legacy → e = .revoke → grantOf r ≠ Const.GrantTypeClientCredentials
+  ccParam : rt = .legacy → e = .revoke → grantOf r = Const.GrantTypeClientCredentials → CCClientsBySecret x
+  compareOnly : rt = .provider → (e = .introspect ∨ e = .revoke ∨
+      (e = .token ∧ (grantOf r = Const.GrantTypeTokenExchange ∨ grantOf r = Const.GrantTypeDeviceCode))) → x.storage.secretCompareOnly = false
+  stray : rt = .legacy → e = .introspect → x.storage.secretCompareOnly = true → NoStraySecrets x
 
 /-- **C05 (partial: outside the two findings left on record).**  For BOTH routers, EVERY provider configuration (flags, storage
     capabilities), every set of registrations, stored codes / refresh tokens / device authorizations, every request (all strings,
@@ -1606,17 +1720,18 @@ theorem c05_auth_required_partial (now : Int) (rt : Router) (x : EPProvider) (o 
     have := goodToken_exchange (x := x) (now := now) (o := o) (r := r.parsed)
       (fun hg => h.noEmpty rfl rfl hg)
       (fun hg => h.device rfl rfl hg)
+      (fun hg => h.compareOnly rfl (Or.inr (Or.inr ⟨rfl, hg⟩)))
     simpa [specEndpoint] using judge_token this
   · rw [decision_provider_introspect]
-    exact judge_introspect goodIntrospect_introspect
+    exact judge_introspect (goodIntrospect_introspect (h.compareOnly rfl (Or.inl rfl)))
   · rw [decision_provider_revoke]
-    exact judge_revoke goodRevoke_revoke
+    exact judge_revoke (goodRevoke_revoke (h.compareOnly rfl (Or.inr (Or.inl rfl))))
   · rw [decision_provider_device]
     exact judge_device goodDevice_deviceAuthorizationHandler
   · rw [decision_legacy_token]
     exact judge_token goodToken_tokensHandler
   · rw [decision_legacy_introspect]
-    exact judge_introspect goodIntrospect_introspectionHandler
+    exact judge_introspect (goodIntrospect_introspectionHandler (h.stray rfl rfl))
   · rw [decision_legacy_revoke]
     apply judge_revoke
     apply withClient_cases (P := GoodRevoke (cfgOf x) now (credsOf o r)) (fun err => goodRevoke_writeError ..)
@@ -1909,7 +2024,9 @@ example (rt : Router) (e : EP.Endpoint) (r : EPRequest) (h : grantOf r ≠ Const
     intro c hc
     have : c = Demo.web ∨ c = Demo.pub ∨ c = Demo.pk := by simpa [Demo.provider] using hc
     rcases this with rfl | rfl | rfl <;> decide
-  ccParam := fun _ _ => h
+  ccParam := fun _ _ hg => absurd hg h
+  compareOnly := fun _ _ => rfl
+  stray := fun _ _ hl => by simp [Demo.provider] at hl
 
 /-- the regenerated route tables register the expected handler for the four endpoints (a re-wiring breaks the `decision_*` lemmas) -/
 example : (GenEP.providerRoutes.find? (·.1 == "o.TokenEndpoint().Relative()")).map (·.2) = some "tokenHandler(o)" := by decide
@@ -1924,6 +2041,7 @@ theorem goodToken_decision (now : Int) (rt : Router) (x : EPProvider) (o : EPOra
     have := goodToken_exchange (x := x) (now := now) (o := o) (r := r.parsed)
       (fun hg => h.noEmpty rfl rfl hg)
       (fun hg => h.device rfl rfl hg)
+      (fun hg => h.compareOnly rfl (Or.inr (Or.inr ⟨rfl, hg⟩)))
     simpa using this
   · rw [decision_legacy_token]; exact goodToken_tokensHandler
 
@@ -1940,5 +2058,143 @@ theorem c05_tokens_only_authenticated (now : Int) (rt : Router) (x : EPProvider)
   rw [hresp] at hg
   simp only [GoodToken, TokensOK, hb, hcc, if_false] at hg
   exact hg
+
+/-! ## "no secret and no assertion ⇒ refused" at the introspection endpoint of the Server router, WHATEVER the storage answers
+    (the guard `cc.ClientSecret == "" && cc.ClientAssertion == ""` of `webServer.introspectionHandler`; the storage's
+    `AuthorizeClientIDSecret` is never consulted for such a request) -/
+
+/-- the request presents neither a secret (Basic password resp. `client_secret`, as `credsOf` reads them) nor a `client_assertion` -/
+def NoCredentials (o : EPOracles) (r : EPRequest) : Prop :=
+  (∀ p, (credsOf o r).primary = some p → p.secret = "") ∧ r.Form.last "client_assertion" = ""
+
+theorem c05_no_credentials_refused (now : Int) (x : EPProvider) (o : EPOracles) (r : EPRequest) (h : NoCredentials o r) :
+    ∃ e s, EP.endpointDecision now .legacy x o .introspect r = .json e s ∧ s ≥ 400 := by
+  rw [decision_legacy_introspect, introspectionHandler_eq]
+  unfold introspectionHandlerSpec
+  split; · exact writeError_shape ..
+  rename_i cc hparse
+  obtain ⟨hprim, hass⟩ := parseClientCredentials_ok hparse
+  have h1 : cc.ClientSecret = "" := h.1 _ hprim
+  have h2 : cc.ClientAssertion = "" := by rw [hass]; exact h.2
+  simp only [h1, h2, and_self, if_true]
+  exact writeError_shape ..
+
+/-- revocation of either router, read directly -/
+theorem goodRevoke_decision (now : Int) (rt : Router) (x : EPProvider) (o : EPOracles) (r : EPRequest) (h : Assumptions rt x .revoke r) :
+    GoodRevoke (cfgOf x) now (credsOf o r) (EP.endpointDecision now rt x o .revoke r) := by
+  cases rt
+  · rw [decision_provider_revoke]
+    exact goodRevoke_revoke (h.compareOnly rfl (Or.inr (Or.inl rfl)))
+  · rw [decision_legacy_revoke]
+    apply withClient_cases (P := GoodRevoke (cfgOf x) now (credsOf o r)) (fun err => goodRevoke_writeError ..)
+    intro c hv _
+    exact goodRevoke_revocationHandler hv (h.ccParam rfl rfl)
+
+/-- a request without a secret whose `client_assertion` proves nobody fits only a registration that needs no credential: a
+    public client, or a client whose registered secret is the empty string -/
+theorem credsFit_no_credentials {c : Cfg} {now : Int} {cl : OPClient} {k : Creds} (hfit : credsFit c now cl k = true)
+    (hs : ∀ p, k.primary = some p → p.secret = "")
+    (ha : ∀ t, k.assertion = some t →
+      C14.provesClient c.base.issuer c.base.jwtMaxAgeIAT c.base.jwtOffset (C04.registry c.base.clients) t now = none) :
+    cl.auth = "none" ∨ (cl.auth ≠ "private_key_jwt" ∧ cl.secret = "") := by
+  by_cases hn : cl.auth = "none"
+  · exact Or.inl hn
+  right
+  have hn' : (cl.auth == "none") = false := by simpa using hn
+  unfold credsFit at hfit
+  by_cases hk : cl.auth = "private_key_jwt"
+  · -- a private_key_jwt registration is only fitted by a proving assertion
+    exfalso
+    have hk' : (cl.auth == "private_key_jwt") = true := by simpa using hk
+    cases hka : k.assertion with
+    | none =>
+      cases hkp : k.primary with
+      | none => simp [hka, hkp] at hfit
+      | some p => simp [hka, hkp, credentialFits, C04.callerIs, hn', hk'] at hfit
+    | some t =>
+      have := ha t hka
+      cases hkp : k.primary with
+      | none => simp [hka, hkp, credentialFits, C04.callerIs, hn', hk', this] at hfit
+      | some p => simp [hka, hkp, credentialFits, C04.callerIs, hn', hk', this] at hfit
+  · refine ⟨hk, ?_⟩
+    have hk' : (cl.auth == "private_key_jwt") = false := by simpa using hk
+    cases hkp : k.primary with
+    | none =>
+      cases hka : k.assertion with
+      | none => simp [hka, hkp] at hfit
+      | some t => simp [hka, hkp, credentialFits, C04.callerIs, hn', hk'] at hfit
+    | some p =>
+      have hp := hs p hkp
+      cases hka : k.assertion with
+      | none =>
+        simp [hka, hkp, credentialFits, C04.callerIs, hn', hk', hp] at hfit
+        exact hfit.1.2
+      | some t =>
+        simp [hka, hkp, credentialFits, C04.callerIs, hn', hk', hp] at hfit
+        exact hfit.1.2
+
+/-- **"no secret and no assertion ⇒ refused", revocation of both routers** (Server router: `withClient` = `verifyRequestClient` /
+    `parseClientCredentials` / `VerifyClient` in front of `revocationHandler`): a revocation performed for a request that carries
+    neither a secret nor a proving assertion acted for a client that is registered as public (or whose registered secret is empty) -/
+theorem c05_no_credentials_only_public (now : Int) (rt : Router) (x : EPProvider) (o : EPOracles) (r : EPRequest)
+    (h : Assumptions rt x .revoke r) (hno : NoCredentials o r)
+    (hjunk : C14.provesClient x.issuer (3600 * Go.second) Go.second (C04.registry x.storage.base.clients) (o.tokenOf "") now = none)
+    {c : String} (hresp : EP.endpointDecision now rt x o .revoke r = .ok (.revoked c)) :
+    ∃ cl, x.storage.base.clients.find? (·.id == c) = some cl ∧ (cl.auth = "none" ∨ (cl.auth ≠ "private_key_jwt" ∧ cl.secret = "")) := by
+  have hg := goodRevoke_decision now rt x o r h
+  rw [hresp] at hg
+  obtain ⟨cl, hf, hfit⟩ := hg
+  refine ⟨cl, hf, credsFit_no_credentials hfit hno.1 ?_⟩
+  intro t ht
+  have : t = o.tokenOf "" := by
+    have : (credsOf o r).assertion = some (o.tokenOf (r.Form.last "client_assertion")) := rfl
+    rw [this, hno.2] at ht
+    exact (Option.some.inj ht).symm
+  rw [this]; exact hjunk
+
+/-- the oracle hypothesis of `c05_no_credentials_only_public` is satisfiable: what the default parser oracle makes of the empty
+    string proves no client of the demo provider -/
+example : C14.provesClient Demo.provider.issuer (3600 * Go.second) Go.second (C04.registry Demo.provider.storage.base.clients)
+    (({} : EPOracles).tokenOf "") 0 = none := by decide
+
+/-! finding F-C05h (hypothesis `compareOnly` of `c05_auth_required_partial`): with a storage whose `AuthorizeClientIDSecret` only
+    compares the stored secret, the Provider router answers a PUBLIC client that sends `Authorization: Basic base64("pub:")`
+    with an active introspection document -/
+namespace Witness
+def compareProvider : EPProvider := { storage := { base := { clients := [pubClient, pkClient] }, secretCompareOnly := true } }
+def tokenForm (kv : List (String × String)) : EPValues := { kv := ("token", "at1") :: kv }
+def emptyBasic (id : String) : EPRequest := { basic := some (id, ""), Form := tokenForm [], PostForm := tokenForm [] }
+/-- the partially filled presentation: `client_id` and `client_assertion_type`, but neither an assertion nor a secret -/
+def typeOnly (id : String) : EPRequest :=
+  { Form := tokenForm [("client_id", id), ("client_assertion_type", Const.ClientAssertionTypeJWTAssertion)],
+    PostForm := tokenForm [("client_id", id), ("client_assertion_type", Const.ClientAssertionTypeJWTAssertion)] }
+end Witness
+
+open Witness in
+theorem c05_compare_only_witness :
+    judge (cfgOf compareProvider) 0 .introspect (credsOf {} (emptyBasic "pub"))
+        (obsOf (EP.endpointDecision 0 .provider compareProvider {} .introspect (emptyBasic "pub")))
+      = some "unauthenticated-introspection" := by
+  decide
+
+/-- the Server router refuses the same storage's public and private_key_jwt clients at introspection: Basic header with an empty
+    password, `client_id` alone, and `client_id` + `client_assertion_type` without an assertion (concrete instances of
+    `c05_no_credentials_refused`; they stop evaluating to `true` when the guard of `introspectionHandler` looks at another field) -/
+example : [Witness.emptyBasic "pub", Witness.emptyBasic "pk", Witness.typeOnly "pub", Witness.typeOnly "pk",
+      { Form := Witness.tokenForm [("client_id", "pub")], PostForm := Witness.tokenForm [("client_id", "pub")] }].all (fun r =>
+    let o := obsOf (EP.endpointDecision 0 .legacy Witness.compareProvider {} .introspect r)
+    !o.success && decide (o.status ≥ 400)) = true := by decide
+/-- ... while a client registered for a secret method is served by it (both routers, both kinds of storage) -/
+example : [true, false].all (fun cmp => [Router.provider, Router.legacy].all fun rt =>
+    let x : EPProvider := { Demo.provider with storage := { Demo.provider.storage with secretCompareOnly := cmp } }
+    let resp := EP.endpointDecision 0 rt x {} .introspect Demo.tokenReq
+    (obsOf resp).success && (judge (cfgOf x) 0 .introspect (credsOf {} Demo.tokenReq) (obsOf resp)).isNone) = true := by decide
+/-- revocation, Server router, comparing storage: a public client may revoke with its id alone, a private_key_jwt client may not -/
+example :
+    (obsOf (EP.endpointDecision 0 .legacy Witness.compareProvider {} .revoke
+      { Form := Witness.tokenForm [("client_id", "pub")], PostForm := Witness.tokenForm [("client_id", "pub")] })).success = true ∧
+    (obsOf (EP.endpointDecision 0 .legacy Witness.compareProvider {} .revoke
+      { Form := Witness.tokenForm [("client_id", "pk")], PostForm := Witness.tokenForm [("client_id", "pk")] })).success = false ∧
+    (obsOf (EP.endpointDecision 0 .legacy Witness.compareProvider {} .revoke (Witness.emptyBasic "pk"))).success = false := by decide
 
 end C05
